@@ -83,6 +83,26 @@ class Blocks:
         if kind not in self._b: self._mk(kind)
         return self._b[kind][0]
 
+    def probe(self):
+        """the two widths Model/Fp.v is parameterised by, read off the LIVE circuits by class (not by instance name):
+        ew = width of the shift-amount wire of FPAdder_SP's alignment ShiftRight (the `ediff` wire);
+        hi = upper bound of the Range(shifted, hi, 0) that feeds FPtoInt_SP's p_lost."""
+        out = {'ediff_width': None, 'plost_range_high': None}
+        try:
+            from py4hw.logic.arithmetic import ShiftRight
+            from py4hw.logic.bitwise import Range
+            add = self.hw('add').children['dut']
+            srs = [c for c in add.children.values() if isinstance(c, ShiftRight)]
+            if len(srs) == 1:
+                out['ediff_width'] = [p.wire.getWidth() for p in srs[0].inPorts if p.name == 'b'][0]
+            f2i = self.hw('f2i').children['dut']
+            rs = [c for c in f2i.children.values() if isinstance(c, Range) and c.low == 0 and c.a.getWidth() == 64]
+            if len(rs) == 1:
+                out['plost_range_high'] = rs[0].high
+        except Exception as ex:
+            out['error'] = repr(ex)
+        return out
+
 
 # ------------------------------------------------------------------ exact specification (what the property says)
 def spec_cmp(x, y, absolute):
@@ -146,8 +166,8 @@ def m_cmp(a, b, absolute):
     lt = (sa & (1 - sb)) | (seq & (egt if sa else elt)) | (seq & eeq & (mgt if sa else mlt))
     return (gt, seq & eeq & meq, lt)
 
-def m_add(a, b, ediff_bits=5):
-    """ediff_bits=5 is the circuit; a wider ediff is the datapath with the known defect neutralised"""
+def m_add(a, b, ediff_bits=8):
+    """ediff_bits = width of the ediff wire (8 in the circuit since 150f909, 5 before: wraps for gaps >= 32)"""
     if m_cmp(a, b, True)[2]: a, b = b, a
     sa, ea, fa = fields(a); sb, eb, fb = fields(b)
     ma = (int(ea != 0) << 23) | fa; mb = (int(eb != 0) << 23) | fb
@@ -177,8 +197,8 @@ def m_i2f(a):
     r = 0 if z else pack(sign, tr(8, 158 - clz), tr(23, sh >> 8))
     return (r, pl)
 
-def m_f2i(a, plost_high=32):
-    """plost_high=32 is the circuit (Range(shifted, 32, 0)); 31 is the datapath with the known defect neutralised"""
+def m_f2i(a, plost_high=31):
+    """plost_high = upper bound of the p_lost range (31 in the circuit since 48843fa, 32 before: fired on odd integers)"""
     s, pe, f = fields(a)
     hid = int(pe != 0); m = (hid << 23) | f
     den = int(not hid and f != 0); zero = int(not hid and f == 0)
